@@ -4,7 +4,7 @@
 //! the private `fn chronobox_time` and the row loop of `main()`, both cut
 //! verbatim out of the current source (see lib/gen_extract.py).
 
-use crate::extracted_cbts::{chronobox_ticks, chronobox_time, rows};
+use crate::extracted_cbts::{chronobox_ticks, chronobox_time, rows, rows_enc};
 use crate::sym;
 use alpha_g_detector::chronobox::{FifoEntry, TimestampCounter, WrapAroundMarker};
 use uom::si::time::second;
@@ -176,8 +176,9 @@ pub fn displacement() {
 
 // ---- row loop --------------------------------------------------------------
 
-/// Stand-in for `chronobox_time` while the ROW LOOP is decided (`#[kani::stub]`,
-/// row-loop instances only): an injective, float-free encoding of its three
+/// Stand-in for `chronobox_time` while the ROW LOOP is decided (the extractor
+/// emits a copy of the loop, `rows_enc`, whose single kernel call goes here -
+/// used under Kani and in the native replay alike): an injective, float-free encoding of its three
 /// arguments (24-bit timestamp, and per marker: presence, top bit, low 11
 /// counter bits) in the mantissa of an f64 in [1, 2). The loop never inspects
 /// the value, so the time column must equal the encoding of the right entry
@@ -232,7 +233,7 @@ pub fn row_loop<const N: usize>() {
         }
         i += 1;
     }
-    let out = rows(vec![(String::new(), fifo)]);
+    let out = rows_enc(vec![(String::new(), fifo)]);
     // expected rows, in a local array (rows are then compared at concrete indices)
     let mut exp = [(0u8, false, None::<u64>); N];
     let mut k = 0usize;
@@ -255,10 +256,7 @@ pub fn row_loop<const N: usize>() {
                     next = Some(m);
                 }
             }
-            #[cfg(kani)]
             let want = chronobox_time_stub(tsc, prev, next).map(|t| t.get::<second>().to_bits());
-            #[cfg(not(kani))]
-            let want = chronobox_time(tsc, prev, next).map(|t| t.get::<second>().to_bits());
             exp[k] = (ch, trailing, want);
             k += 1;
         }
